@@ -277,4 +277,120 @@ func runC16(c *eng.Ctx) {
 			}
 		}
 	})
+
+	// ---- 6. family grouping: a group is the rows inside the family range of the group's first row -----------------------------------
+	c.Rule("GUARD", "series/metric.BrokerBatchShardFamilyIterator{rows inside the first row's family range}", func() {
+		fiT := "series/metric.BrokerBatchShardFamilyIterator"
+		trOf := eng.CallTo(fiT + ".timeRangeOfTimestamp")
+		ftOf := eng.CallTo(fiT + ".familyTimeOfTimestamp")
+		contains := eng.AnyCallTo("pkg/timeutil.TimeRange.Contains")
+		for _, fk := range []string{fiT + ".isSameFamily", fiT + ".HasNextFamily"} {
+			f := c.Fn(fk)
+			tr := c.One(f, trOf, "timeRangeOfTimestamp(first)")
+			ft := c.One(f, ftOf, "familyTimeOfTimestamp(first)")
+			a1 := eng.CallArgs(tr.Instr.(*ssa.Call))[0]
+			a2 := eng.CallArgs(ft.Instr.(*ssa.Call))[0]
+			c.Check(eng.SameValue(a1, a2), fk+":range-and-family-time-of-one-timestamp", ft.Instr, f, "the family time handed out and the range rows are tested against come from the same (first) timestamp", p.Desc(a1)+" vs "+p.Desc(a2))
+			st := c.One(f, eng.StoreField(fiT+".groupFamilyTime"), "itr.groupFamilyTime = ...")
+			v, _ := storedValue(st.Instr)
+			c.Check(v == ft.Instr.(ssa.Value), fk+":group-family-time", st.Instr, f, "the group's family time is familyTimeOfTimestamp(first)", "stores "+p.Desc(v))
+			cs := c.Some(f, contains, "timeRange.Contains(row timestamp)")
+			for i, cn := range cs {
+				call := cn.Instr.(*ssa.Call)
+				recv := call.Common().Args[0]
+				c.Check(eng.DependsOn(recv, func(x ssa.Value) bool { return x == tr.Instr.(ssa.Value) }), fmt.Sprintf("%s:tested-against-first-rows-range[%d]", fk, i), call, f,
+					"membership is tested against the family range of the group's first row", "receiver "+p.Desc(recv))
+				arg := call.Common().Args[1]
+				c.Check(eng.DependsOn(arg, func(x ssa.Value) bool {
+					cl, ok := x.(*ssa.Call)
+					return ok && cl.Common().IsInvoke() && cl.Common().Method.Name() == "Timestamp" || ok && cl.Common().StaticCallee() != nil && baseName(cl.Common().StaticCallee().Name()) == "Timestamp"
+				}), fmt.Sprintf("%s:tests-the-rows-timestamp[%d]", fk, i), call, f, "the value tested is a row's timestamp", "tests "+p.Desc(arg))
+			}
+			// acceptance only on the Contains edge
+			te, fe := eng.BoolCheckEdges(f, cs[0].Instr.(ssa.Value))
+			c.Check(len(te) > 0 && len(fe) > 0, fk+":membership-branches", cs[0].Instr, f, "the membership test decides a branch", "")
+			if strings.HasSuffix(fk, ".isSameFamily") {
+				// "all rows in one family" is answered true only when no row failed the test: the false edge leads to `return false`
+				for i, e := range fe {
+					first := e.B.Succs[e.Succ].Instrs[0]
+					_, canTrue := eng.PathExists(eng.PathQuery{Fn: f, After: first, Target: func(in ssa.Instruction) bool {
+						r, ok := in.(*ssa.Return)
+						if !ok {
+							return false
+						}
+						k, isC := eng.RetVal(r, 0).(*ssa.Const)
+						return !isC || k.Value == nil || k.Value.String() != "false"
+					}})
+					r0, isRet := first.(*ssa.Return)
+					okF := isRet && !canTrue
+					if isRet {
+						k, isC := eng.RetVal(r0, 0).(*ssa.Const)
+						okF = isC && k.Value != nil && k.Value.String() == "false"
+					}
+					c.Check(okF, fmt.Sprintf("%s:outside-row-means-not-same[%d]", fk, i), first, f, "a row outside the first row's family range makes isSameFamily answer false", "")
+				}
+			} else {
+				nInc := 0
+				for i, s := range p.Sites(f, eng.StoreField(fiT+".groupEnd")) {
+					sv, _ := storedValue(s.Instr)
+					if _, k := eng.SplitConstAdd(sv); k != 1 {
+						continue // groupEnd = len(rows) on the same-family fast path
+					}
+					ok := false
+					for _, e := range te {
+						if eng.DominatedByEdge(f, s.Instr, e) {
+							ok = true
+						}
+					}
+					nInc++
+					c.Check(ok, fmt.Sprintf("%s:extend-only-inside-range[%d]", fk, i), s.Instr, f, "the group is extended by a row only on the true edge of the membership test", "")
+				}
+				c.Check(nInc == 1, fk+":one-extension-site", nil, f, "the group grows at exactly one place (groupEnd++)", fmt.Sprintf("%d", nInc))
+			}
+		}
+		// the range is the family of the timestamp: [start(seg, family(ts, seg)), end(start)]
+		tf := c.Fn(fiT + ".timeRangeOfTimestamp")
+		seg := c.One(tf, invokeOn(".intervalCalc", "CalcSegmentTime"), "CalcSegmentTime(ts)")
+		fam := c.One(tf, invokeOn(".intervalCalc", "CalcFamily"), "CalcFamily(ts, seg)")
+		stt := c.One(tf, invokeOn(".intervalCalc", "CalcFamilyStartTime"), "CalcFamilyStartTime(seg, family)")
+		end := c.One(tf, invokeOn(".intervalCalc", "CalcFamilyEndTime"), "CalcFamilyEndTime(start)")
+		ts := ssa.Value(tf.Params[1])
+		fa := eng.CallArgs(fam.Instr.(*ssa.Call))
+		sa := eng.CallArgs(stt.Instr.(*ssa.Call))
+		c.Check(eng.CallArgs(seg.Instr.(*ssa.Call))[0] == ts && fa[0] == ts && fa[1] == seg.Instr.(ssa.Value), "range:family-of-the-timestamp", fam.Instr, tf, "segment and family are computed from the timestamp", "")
+		c.Check(sa[0] == seg.Instr.(ssa.Value) && sa[1] == fam.Instr.(ssa.Value), "range:start-of-that-family", stt.Instr, tf, "the start is the start of that family in that segment", "")
+		c.Check(eng.CallArgs(end.Instr.(*ssa.Call))[0] == stt.Instr.(ssa.Value), "range:end-of-that-family", end.Instr, tf, "the end is the end of the family starting there", "")
+		for i, r := range eng.SuccessReturns(tf) {
+			rv := eng.RetVal(r, 0)
+			c.Check(eng.DependsOn(rv, func(x ssa.Value) bool { return x == stt.Instr.(ssa.Value) }) && eng.DependsOn(rv, func(x ssa.Value) bool { return x == end.Instr.(ssa.Value) }),
+				fmt.Sprintf("range:returns-start-end[%d]", i), r, tf, "the returned range is [start, end] of that family", "returns "+p.Desc(rv))
+		}
+		ftf := c.Fn(fiT + ".familyTimeOfTimestamp")
+		cft := c.One(ftf, invokeOn(".intervalCalc", "CalcFamilyTime"), "CalcFamilyTime(ts)")
+		c.Check(eng.CallArgs(cft.Instr.(*ssa.Call))[0] == ssa.Value(ftf.Params[1]), "family-time-of-the-timestamp", cft.Instr, ftf, "the family time is computed from the timestamp", "")
+		// NextFamily hands out exactly [groupStart, groupEnd) with the group's family time
+		nf := c.Fn(fiT + ".NextFamily")
+		for i, r := range eng.SuccessReturns(nf) {
+			c.Check(eng.DependsOnField(eng.RetVal(r, 0), fiT+".groupFamilyTime") && eng.DependsOnField(eng.RetVal(r, 1), fiT+".groupStart") && eng.DependsOnField(eng.RetVal(r, 1), fiT+".groupEnd"),
+				fmt.Sprintf("next-family-returns-the-group[%d]", i), r, nf, "NextFamily returns the group's family time with rows[groupStart:groupEnd]", "")
+		}
+	})
+
+	// ---- 7. line protocol: the shared row builder starts every line empty -----------------------------------------------------------
+	c.Rule("RESET", "ingestion/influx.Parse{row builder per line}", func() {
+		f := c.Fn("ingestion/influx.Parse")
+		hn := c.One(f, invokeOn("", "HasNext"), "cr.HasNext()")
+		pl := c.One(f, eng.CallTo("ingestion/influx.parseInfluxLine"), "parseInfluxLine(rowBuilder, line, ...)")
+		rb := eng.CallArgs(pl.Instr.(*ssa.Call))[0]
+		var rs []eng.Site
+		for _, s := range p.Sites(f, invokeOn("", "Reset")) {
+			if eng.SameValue(eng.CallRecv(s.Instr.(*ssa.Call)), rb) {
+				rs = append(rs, s)
+			}
+		}
+		c.Check(len(rs) > 0, "builder-reset-exists", pl.Instr, f, "the row builder is reset inside the line loop", "no rowBuilder.Reset()")
+		_, stale := eng.Reaches(f, hn.Instr, []eng.Site{pl}, rs)
+		c.Check(!stale, "reset-before-every-line", pl.Instr, f,
+			"on every path from the loop test to parseInfluxLine the builder was reset: tags / fields a rejected line already added can not leak into the next row", "parseInfluxLine is reachable from cr.HasNext() without rowBuilder.Reset()")
+	})
 }
